@@ -52,7 +52,7 @@ theorem C01_encodeFinite (T : Ty) (neg : Bool) (ds : List Nat) (hds : AsciiDigit
     (hq : T.expIsI32 = true → i32Min - ds.length ≤ q ∧ q ≤ i32Max + ds.length) :
     match encodeFinite T neg ds (passed T q) with
     | .ok b => ∃ n, 0 < n ∧ b = ⟨4 * n, encodeFin ⟨n⟩ neg (valOf ds) q⟩ ∧ (Fmt.mk n).fitsB ds.length (some q) = true ∧
-        b.bits < 2 ^ (32 * n) ∧
+        b.bits < 2 ^ (32 * n) ∧ valOf ds < 10 ^ (Fmt.mk n).p ∧
         (match T.fixedN with
          | some w => n = w
          | none => need ds.length (some q) ≤ n ∧ n ≤ need ds.length (some q) + 1 ∧
@@ -114,8 +114,9 @@ theorem C01_encodeFinite (T : Ty) (neg : Bool) (ds : List Nat) (hds : AsciiDigit
     have hpr : (encodeSignificand (Buf.zero (4 * n)) ds).1.precision = 9 * n - 2 := by
       simp only [Buf.precision, hwb]; omega
     simp only [hwb, hpr]
-    refine ⟨n, hn, hbits, hfit, ?_, hw⟩
+    have hval : valOf ds < 10 ^ (Fmt.mk n).p := Nat.lt_of_lt_of_le (valOf_lt hds) (Nat.pow_le_pow_right (by decide) hlen)
+    refine ⟨n, hn, hbits, hfit, ?_, hval, hw⟩
     rw [hbits]
-    exact encodeFin_lt n hn neg _ (Nat.lt_of_lt_of_le (valOf_lt hds) (Nat.pow_le_pow_right (by decide) hlen)) q ⟨hq1, hq2⟩
+    exact encodeFin_lt n hn neg _ (by simpa [Fmt.p] using hval) q ⟨hq1, hq2⟩
 
 end Decstr.Props.C01
